@@ -72,11 +72,18 @@ CHECKS = {
          "Lean 4 proof (replace = rebuild on a by-name metadata model, by induction over replacement sequences) + differential correspondence", "DESIGN.md §5 C15"),
  'C20': ("Lean 4 proves, for an ISA interpreter written from tinyrv0-isa.md, that decode after encode is the identity on all ten instructions with in-range fields, that encode is "
          "injective and decode accepts exactly the table (decode_iff), that immediates are sign-extended, x0 stays 0, shifts use the low five bits, PC' = PC + 4 except a taken bne, "
-         "lw after sw returns the stored word in little-endian memory, and that the checksum FL/CL/RTL algorithms equal the specification for every input of every length. PARTIAL: "
-         "no theorem covers ProcFL, ProcCL or the five-stage ProcRTL themselves; their agreement with the ISA on the proc2mngr sequence, final memory image and commit count is checked "
-         "by differential execution of random terminating programs (hazards, load-use, store-load, branches, csr) under random memory latency, stall and src/sink delays, against the "
-         "Lean interpreter and an independent Python interpreter.",
-         "Proof covers the ISA model, encoding and checksum algorithms. The pipeline (hazard, bypass, squash) and the FL/CL/RTL adapters rest on bounded differential testing only. "
+         "lw after sw returns the stored word in little-endian memory, and that the checksum FL/CL/RTL algorithms equal the specification for every input of every length. "
+         "The five-stage ProcRTL is inside the model: Model/Pipe.lean is a cycle-level model of ProcCtrlRTL + ProcDpathRTL + drop unit + the request/response queues as instantiated "
+         "(stall / squash / bypass / hazard equations transcribed), and Props/C20p.lean proves for EVERY program and EVERY environment timing (arbitrary rdy / latency / delays; in-order "
+         "memories; no fairness needed): per-cycle control laws (stall_chain, stall_keeps, bubble, squash_origin, squash_younger_only, rf_write_only_W, x0), ghost-tag conservation for every "
+         "reachable state under any inputs incl. resets (stage_conservation, tags_in_order, no_dup_no_loss, drop_unit_exact), and the refinement to the ISA: refinement_invariant, "
+         "arch_state_refines and commits_are_isa (the register file and proc2mngr stream observed after each commit are the ISA's after 1..k instructions), branch_decision_is_isa; the "
+         "environment assumption is an explicit predicate shown satisfiable (env_assumption_satisfiable, runs_satisfiable). The model is tied to the real ProcRTL by cycle-exact comparison of "
+         "17 outputs and a 175-entry state digest on every cycle of every run (from power-on, through resets in mid-run). PARTIAL: ProcFL, ProcCL and the FL/CL/RTL adapters (sources, sinks, "
+         "test memory) are related to the ISA by differential execution of random terminating programs (hazards, load-use, store-load, branches, csr) under random memory latency, stall and "
+         "src/sink delays only; the pipeline theorems are safety statements (prefix of the ISA execution), termination / liveness is observed, not proved.",
+         "Proof covers the ISA model, encoding, checksum algorithms and the five-stage pipeline (control invariants + refinement to the ISA for all programs and timings, under the stated "
+         "in-order-memory environment predicate, no self-modifying code). ProcFL / ProcCL and the adapters rest on differential testing only. "
          "xcel CSRs and illegal instructions are out of scope. ProcCL does not commit nops, so its commit count is compared modulo nops.",
          "Lean 4 proof (ISA model, encoding bijection, checksum equivalence) + differential execution of the three processors (partial)", "DESIGN.md §5 C20"),
  'C06': ("Lean 4 proofs over a hand-written executable model of the methods generated by @bitstruct/mk_bitstruct. For every type shape (nested structs, multi-dimensional list "
